@@ -890,6 +890,55 @@ pub fn run(args: &Args) -> i32 {
                 out.ev(merge(json!({"op": "split", "case": format!("rho_impl/{}", nn), "via": "rho_impl", "n": dn(&nn), "nd": nn.to_string()}), &r.unwrap_or_else(|e| e)));
             }
         }
+        // batches of semiprimes of 30..44 bits through rho() and rho64(): the corner where both cycles close within the
+        // same block of steps (the accumulated product is 0 modulo n) shows on a fraction of a percent of them
+        {
+            let per = 250usize;
+            let nbatch = if thorough { 48 } else { 16 };
+            for bi in 0..nbatch {
+                let via = if bi % 2 == 0 { "rho" } else { "rho64" };
+                let mut ns: Vec<u64> = vec![];
+                for j in 0..per {
+                    let bits = 30 + ((bi / 2 + j) % 15) as u32;
+                    let rp = |rng: &mut StdRng, b: u32| loop {
+                        let c = rand_bits(rng, b).digits()[0] | 1;
+                        if is_prime_u64(c) {
+                            return c;
+                        }
+                    };
+                    let p = rp(&mut rng, bits / 2);
+                    let q = rp(&mut rng, bits - bits / 2);
+                    if p != q {
+                        ns.push(p * q);
+                    }
+                }
+                let ns2 = ns.clone();
+                let r = guard_deadline(600.0, move || {
+                    ns2.iter()
+                        .map(|&n| {
+                            let r: Option<Vec<Uint>> = if via == "rho" {
+                                pollard_rho::rho(&Uint::from(n), Verbosity::Silent).map(|(mut f, r)| {
+                                    f.push(r);
+                                    f
+                                })
+                            } else {
+                                pollard_rho::rho64(n, 1 + n % 3, 131072).map(|(a, b)| vec![Uint::from(a), Uint::from(b)])
+                            };
+                            match r {
+                                None => json!({"some": false, "parts": []}),
+                                Some(v) => json!({"some": true, "parts": v.iter().map(dn).collect::<Vec<_>>()}),
+                            }
+                        })
+                        .collect::<Vec<Value>>()
+                });
+                let base = json!({"op": "splits", "case": format!("{}-batch/{}", via, bi), "via": via,
+                                  "ns": ns.iter().map(|&n| du(n)).collect::<Vec<_>>(), "nsd": ns.iter().map(|n| n.to_string()).collect::<Vec<_>>()});
+                out.ev(match r {
+                    Ok(rs) => merge(base, &json!({"rs": rs})),
+                    Err(e) => merge(base, &e),
+                });
+            }
+        }
         // gcd_factors on cumulative products in which chosen primes enter at chosen positions
         // deterministic family first: two primes entering at consecutive positions (i, i+1) of every short length
         let mut consecutive: Vec<(usize, i64)> = vec![];
